@@ -128,7 +128,10 @@ class Pool:
                 job = nxt(g)
                 if job is None:
                     return
+                t_job = time.monotonic()
                 res = w.call(job)
+                if os.environ.get("VERIF_TIMING") and (time.monotonic() - t_job) > 3:
+                    print("TIMING %-28s %.1fs" % (job.get("id"), time.monotonic() - t_job), flush=True)
                 if res is None:
                     with lock:
                         self.dead_jobs += 1
